@@ -115,6 +115,8 @@ struct x_derived_exit
 };
 template <class M> void x_drive_derived() { M m; m.start(); m.process_event(x_mi()); m.stop(); }
 // assignment of a machine with exit points: instantiates exit_pt::operator= (rule C15.keep: the forwarder stays)
+// construction from the machine's own type, whatever the value category, selects the copy constructor (rule C15.copy-ctor)
+template <class M> void x_copy_variants() { M a; M b(a); M c(static_cast<M&&>(a)); M const& r = b; M d(r); (void)c; (void)d; }
 template <class M> void x_assign() { M a; M b; a.start(); b = a; b.process_event(x_mi()); }
 void x_use_derived()
 {
@@ -123,6 +125,8 @@ void x_use_derived()
     x_drive_derived<x_derived_exit<x_mp11_fct_be>::Top>();
     x_assign<x_derived_exit<x_back_be>::Top>();
     x_assign<x_derived_exit<x_back11_be>::Top>();
+    x_copy_variants<x_derived_exit<x_back_be>::Top>();
+    x_copy_variants<x_derived_exit<x_back11_be>::Top>();
 }
 }
 int main() { return 0; }
